@@ -348,6 +348,8 @@ def stmt_text(st) -> str:
         return f'#include "{st[2]}"'
     if k == 'other':
         return '; just a comment'
+    if k == 'asm':
+        return '    ' + st[1] + (' ' + ', '.join(o[0] for o in st[2]) if st[2] else '')
     raise ValueError(k)
 
 
